@@ -23,7 +23,7 @@ _rewrite_symbols = {
     # '-': '-',  # Same behaviour inside/outside brackets.
     '[!': '[^/',
     # ']': ']',  # Same.
-    '-]': ']', # Discard '-' before closing bracket.
+    '-]': '\\-]', # A trailing '-' has no special meaning (literal).
     '?': '[^/]'
 }
 
